@@ -54,8 +54,11 @@ package server
 // (That every such family does end up in the map needs "the range visits every key", which the map model does
 // not give - DESIGN.md 8.)
 //@ func open2Cap
+// an OPEN without a Multiprotocol capability announces IPv4 unicast (RFC 4760 8): that default is in the peer's list
+// before ADD-PATH tuples and local families are matched against it - an ADD-PATH tuple for ipv4-unicast counts then too
+//@   at-call n.CreateRfMap() requires has(capMap, bgp.BGP_CAP_MULTIPROTOCOL)
 //@   requires open != nil && n != nil
-//@   claims frame step inv-init inv-keep
+//@   claims frame step inv-init inv-keep at-call
 //@   modifies nothing
 //@   loop 6 invariant forall f bgp.Family :: has(negotiated, f) ==> has(local, f) && has(remote, f)
 //@   loop 6 invariant forall f bgp.Family :: has(negotiated, f) ==> (negotiated[f] & bgp.BGP_ADD_PATH_SEND > 0 ==> local[f] & bgp.BGP_ADD_PATH_SEND > 0 && remote[f] & bgp.BGP_ADD_PATH_RECEIVE > 0)
